@@ -137,8 +137,8 @@ func (st *StateTable) Add(state *State) {
 	}
 
 	// we don't have enough space in the state table, and
-	// there are no inactive entries
-	panic("Statetable full")
+	// there are no inactive entries: the connection is not tracked
+	log.Error("Statetable full, not tracking new connection")
 }
 
 // Get will return the state for the ip, port combination
